@@ -104,11 +104,8 @@ func (r *refreshRun) step(op, coqOp string) {
 	// a stop() call is blocked although the flusher is not inside refreshFn: nothing can ever receive from quit
 	if o[4] > 0 && o[3] == 0 && !r.hung {
 		r.hung = true
-		f := ""
-		if r.trigger {
-			f = "F-C17-1"
-		}
-		r.viol = append(r.viol, violation{"stop-never-returns", f,
+		// (F-C17-1, fixed: stop() must return whatever request races it)
+		r.viol = append(r.viol, violation{"stop-never-returns", "",
 			fmt.Sprintf("after %q: stop() is blocked sending on quit, the flusher is not running refreshFn and every goroutine is blocked (refreshFn calls %d, listeners served %d cancelled %d)", op, o[0], o[1], o[2])})
 	}
 }
